@@ -875,7 +875,8 @@ pub fn space_p(full: bool, f: &mut dyn FnMut(u64, &[u8])) -> u64 {
                     links[i] = a;
                     f(idx, &p_program(k, &links, 2, false));
                     idx += 1;
-                    if full {
+                    // pairs of deviations: from the add and mul chains, at the sizes around the register limit
+                    if full && (base == 0 || base == 4) && matches!(k, 3 | 6 | 12 | 13 | 14 | 16) {
                         for j in i + 1..m {
                             for b in 0..n {
                                 if b == base {
